@@ -41,7 +41,7 @@ func init() {
 		{"ServeHTTP", handlerKernel(h, "AppHandler.ServeHTTP", "serveHTTP",
 			"(methodBad isGet formBad handlerErr : Bool) (statusCode_ : Int)", "Int × Bool",
 			"let sent_ := (0 : Int)\n  let called_ := false\n  ", "(sent_, called_)",
-			Spec{Kind: "i64", Ret: "stateonly", StateVars: []string{"sent_", "called_"}, Ignore: ign, Status: st,
+			Spec{Kind: "i64", Lazy: true, Ret: "stateonly", StateVars: []string{"sent_", "called_"}, Ignore: ign, Status: st,
 				IgnoreLHS:  []string{"statusCode", "label0", "label1", "startTime", "logCtx", "err"},
 				InputCalls: []string{"context.WithDeadline"},
 				ErrCalls:   map[string]string{"a.Handler": "handlerErr|called_ := true"},
@@ -51,94 +51,99 @@ func init() {
 		{"addChainInternal", handlerKernel(h, "addChainInternal", "addChainInternal",
 			"(bodyBad chainBad leafBuildBad buildFails rpcFails : Bool) (mapped : Nat) (rspNil qlNil leafNil leafUndecodable trailing signFails sctMarshalFails writeFails : Bool)",
 			"Nat × Bool × Bool × Bool", pre+"let sct_ := false\n  ", "(0, false, rpc_, sct_)",
-			Spec{Kind: "i64", Ret: "statusstate", StateVars: []string{"rpc_", "sct_"}, Ignore: ign, Status: st,
+			Spec{Kind: "i64", Lazy: true, Ret: "statusstate", StateVars: []string{"rpc_", "sct_"}, Ignore: ign, Status: st,
 				IgnoreLHS: []string{"method", "etype", "timeMillis", "req", "loggedLeaf"},
 				ErrCalls: map[string]string{"ParseBodyAsJSONChain": "bodyBad", "verifyAddChain": "chainBad", "ct.MerkleTreeLeafFromChain": "leafBuildBad",
 					"li.buildLeaf": "buildFails", "li.rpcClient.QueueLeaf": "rpcFails|rpc_ := true", "buildV1SCT": "signFails",
-					"tls.Marshal": "sctMarshalFails", "marshalAndWriteAddChainResponse": "writeFails"},
+					"tls.Marshal": "sctMarshalFails", "marshalAndWriteAddChainResponse": "writeFails", "tls.Unmarshal": "leafUndecodable"},
+				Bind: map[string]string{"li.rpcClient.QueueLeaf": "rsp", "tls.Unmarshal": "rest"},
 				Effects:  map[string]string{"li.RequestLog.IssueSCT": "sct_ := true"},
 				InitCond: map[string]string{"rest, err := tls.Unmarshal(rsp.QueuedLeaf.Leaf.LeafValue, &loggedLeaf) ; err != nil": "leafUndecodable"},
 				Repl: common(map[string]string{"rsp == nil": "rspNil", "rsp.QueuedLeaf == nil": "qlNil", "rsp.QueuedLeaf.Leaf == nil": "leafNil",
 					"len(rest) > 0": "trailing"})})},
 		{"getSTH", handlerKernel(h, "getSTH", "getSTHHandler", "(sthFails : Bool) (mapped : Nat) (writeFails : Bool)", "Nat × Bool", "", "(0, false)",
-			Spec{Kind: "i64", Ret: "statusstate", Ignore: ign, Status: st, IgnoreLHS: []string{"qctx", "rqu"},
+			Spec{Kind: "i64", Lazy: true, Ret: "statusstate", Ignore: ign, Status: st, IgnoreLHS: []string{"qctx", "rqu"},
 				ErrCalls: map[string]string{"li.getSTH": "sthFails"},
 				InitCond: map[string]string{"err := writeSTH(sth, w) ; err != nil": "writeFails"},
 				Repl:     common(nil)})},
 		{"getSTHConsistency", handlerKernel(h, "getSTHConsistency", "getSTHConsistency",
 			"(parseFails : Bool) (first_ second_ : Int) (rpcFails : Bool) (mapped : Nat) (rootBad : Bool) (rootSize : Int) (proofNil pathOk marshalFails writeFails : Bool)",
 			"Nat × Bool × Bool", pre, "(0, false, rpc_)",
-			Spec{Kind: "i64", Ret: "statusstate", StateVars: []string{"rpc_"}, Ignore: ign, Status: st,
+			Spec{Kind: "i64", Lazy: true, Ret: "statusstate", StateVars: []string{"rpc_"}, Ignore: ign, Status: st,
 				IgnoreLHS: []string{"jsonRsp", "jsonRsp.Consistency", "req", "currentRoot"},
 				ErrCalls: map[string]string{"parseGetSTHConsistencyRange": "parseFails", "li.rpcClient.GetConsistencyProof": "rpcFails|rpc_ := true",
 					"json.Marshal": "marshalFails", "w.Write": "writeFails"},
+				Bind: map[string]string{"li.rpcClient.GetConsistencyProof": "rsp"},
 				InitCond: map[string]string{rootInit: "rootBad"},
 				Repl:     common(map[string]string{"rsp.Proof == nil": "proofNil", "checkAuditPath(rsp.Proof.Hashes)": "pathOk"})})},
 		{"getProofByHash", handlerKernel(h, "getProofByHash", "getProofByHash",
 			"(hashLen : Int) (hashBad treeSizeBad : Bool) (treeSize_ : Int) (rpcFails : Bool) (mapped : Nat) (rootBad : Bool) (rootSize nProofs : Int) (pathOk marshalFails writeFails : Bool)",
 			"Nat × Bool × Bool", pre, "(0, false, rpc_)",
-			Spec{Kind: "i64", Ret: "statusstate", StateVars: []string{"rpc_"}, Ignore: ign, Status: st,
+			Spec{Kind: "i64", Lazy: true, Ret: "statusstate", StateVars: []string{"rpc_"}, Ignore: ign, Status: st,
 				IgnoreLHS:  []string{"proofRsp", "proofRsp.AuditPath", "req", "currentRoot"},
 				InputCalls: []string{"r.FormValue"},
 				ErrCalls: map[string]string{"base64.StdEncoding.DecodeString": "hashBad", "strconv.ParseInt": "treeSizeBad",
 					"li.rpcClient.GetInclusionProofByHash": "rpcFails|rpc_ := true", "json.Marshal": "marshalFails", "w.Write": "writeFails"},
+				Bind: map[string]string{"li.rpcClient.GetInclusionProofByHash": "rsp"},
 				InitCond: map[string]string{rootInit: "rootBad"},
 				Repl: common(map[string]string{"len(hash)": "hashLen", "err != nil": "treeSizeBad", "len(rsp.Proof)": "nProofs",
 					"checkAuditPath(rsp.Proof[0].Hashes)": "pathOk"})})},
 		{"getEntries", handlerKernel(h, "getEntries", "getEntries",
 			"(parseFails : Bool) (start_ end_ : Int) (rpcErr : Bool) (rpcStatus : Nat) (rootBad : Bool) (rootSize nLeaves : Int) (misindexed leafDecodeFails marshalFails writeFails : Bool)",
 			"Nat × Bool × Bool", pre, "(0, false, rpc_)",
-			Spec{Kind: "i64", Ret: "statusstate", StateVars: []string{"rpc_"}, Ignore: ign, Status: st,
-				IgnoreLHS: []string{"leaves", "req", "currentRoot"},
+			Spec{Kind: "i64", Lazy: true, Ret: "statusstate", StateVars: []string{"rpc_"}, Ignore: ign, Status: st,
+				IgnoreLHS: []string{"req", "currentRoot"},
 				ErrCalls: map[string]string{"parseGetEntriesRange": "parseFails", "rpcGetLeavesByRange": "rpcErr|rpc_ := true",
 					"marshalGetEntriesResponse": "leafDecodeFails", "json.Marshal": "marshalFails", "w.Write": "writeFails"},
+				Bind: map[string]string{"rpcGetLeavesByRange": "rsp"},
 				InitCond:  map[string]string{rootInit: "rootBad"},
 				RangeCond: map[string]string{"rsp.Leaves": "misindexed", "cond:rsp.Leaves": "leaf.LeafIndex != start+int64(i)"},
 				Repl:      common(map[string]string{"len(rsp.Leaves)": "nLeaves"})})},
 		{"rpcGetLeavesByRange", handlerKernel(h, "rpcGetLeavesByRange", "rpcGetLeavesByRange", "(rpcFails : Bool) (mapped : Nat) (fixFails : Bool)", "Option Nat", "", "none",
-			Spec{Kind: "i64", Ret: "statuserr", StatusIdx: 1, Ignore: ign, Status: st,
+			Spec{Kind: "i64", Lazy: true, Ret: "statuserr", StatusIdx: 1, Ignore: ign, Status: st,
 				ErrCalls:  map[string]string{"li.rpcClient.GetLeavesByRange": "rpcFails"},
 				RangeCond: map[string]string{"rsp.Leaves": "fixFails", "cond:rsp.Leaves": "err := li.issuanceChainService.FixLogLeaf(ctx, leaf) ; err != nil"},
 				Repl:      common(nil)})},
 		{"getEntryAndProof", handlerKernel(h, "getEntryAndProof", "getEntryAndProof",
 			"(parseFails : Bool) (leafIndex_ treeSize_ : Int) (rpcErr : Bool) (rpcStatus : Nat) (rootBad : Bool) (rootSize : Int) (leafNil : Bool) (leafValLen : Int) (proofNil : Bool) (nHashes : Int) (marshalFails writeFails : Bool)",
 			"Nat × Bool × Bool", pre, "(0, false, rpc_)",
-			Spec{Kind: "i64", Ret: "statusstate", StateVars: []string{"rpc_"}, Ignore: ign, Status: st,
+			Spec{Kind: "i64", Lazy: true, Ret: "statusstate", StateVars: []string{"rpc_"}, Ignore: ign, Status: st,
 				IgnoreLHS: []string{"jsonRsp", "req", "currentRoot"},
 				ErrCalls: map[string]string{"parseGetEntryAndProofParams": "parseFails", "rpcGetEntryAndProof": "rpcErr|rpc_ := true",
 					"json.Marshal": "marshalFails", "w.Write": "writeFails"},
+				Bind: map[string]string{"rpcGetEntryAndProof": "rsp"},
 				InitCond: map[string]string{rootInit: "rootBad"},
 				Repl: common(map[string]string{"rsp.Leaf == nil": "leafNil", "len(rsp.Leaf.LeafValue)": "leafValLen", "rsp.Proof == nil": "proofNil",
 					"len(rsp.Proof.Hashes)": "nHashes"})})},
 		{"rpcGetEntryAndProof", handlerKernel(h, "rpcGetEntryAndProof", "rpcGetEntryAndProof", "(rpcFails : Bool) (mapped : Nat) (fixFails : Bool)", "Option Nat", "", "none",
-			Spec{Kind: "i64", Ret: "statuserr", StatusIdx: 1, Ignore: ign, Status: st,
+			Spec{Kind: "i64", Lazy: true, Ret: "statuserr", StatusIdx: 1, Ignore: ign, Status: st,
 				ErrCalls: map[string]string{"li.rpcClient.GetEntryAndProof": "rpcFails"},
 				InitCond: map[string]string{"err := li.issuanceChainService.FixLogLeaf(ctx, rsp.Leaf) ; err != nil": "fixFails"},
 				Repl:     common(nil)})},
 		{"logInfo.getSTH", handlerKernel(h, "logInfo.getSTH", "logInfoGetSTH", "(getterFails : Bool)", "ErrKind", "", "ErrKind.ok",
-			Spec{Kind: "i64", Ret: "errkind", Ignore: ign, IgnoreLHS: []string{"logID"}, ErrCalls: map[string]string{"li.sthGetter.GetSTH": "getterFails"}})},
+			Spec{Kind: "i64", Lazy: true, Ret: "errkind", Ignore: ign, IgnoreLHS: []string{"logID"}, ErrCalls: map[string]string{"li.sthGetter.GetSTH": "getterFails"}})},
 		{"LogSTHGetter.GetSTH", handlerKernel(sthgo, "LogSTHGetter.GetSTH", "logSTHGetterGetSTH", "(rootFails signFails : Bool) (sigLen : Int)", "ErrKind", "", "ErrKind.ok",
-			Spec{Kind: "i64", Ret: "errkind", Ignore: append([]string{"copy"}, ign...), IgnoreLHS: []string{"sth"},
+			Spec{Kind: "i64", Lazy: true, Ret: "errkind", Ignore: append([]string{"copy"}, ign...), IgnoreLHS: []string{"sth"},
 				ErrCalls: map[string]string{"getSignedLogRoot": "rootFails", "signV1TreeHead": "signFails"},
 				Repl:     map[string]string{"err != nil": "signFails", "len(sth.TreeHeadSignature.Signature)": "sigLen"}})},
 		{"ParseBodyAsJSONChain", handlerKernel(h, "ParseBodyAsJSONChain", "parseBodyAsJSONChain", "(readFails jsonBad : Bool) (chainLen : Int)", "ErrKind", "", "ErrKind.ok",
-			Spec{Kind: "i64", Ret: "errkind", Ignore: ign, IgnoreLHS: []string{"req"},
+			Spec{Kind: "i64", Lazy: true, Ret: "errkind", Ignore: ign, IgnoreLHS: []string{"req"},
 				ErrCalls: map[string]string{"io.ReadAll": "readFails"},
 				InitCond: map[string]string{"err := json.Unmarshal(body, &req) ; err != nil": "jsonBad"},
 				Repl:     map[string]string{"len(req.Chain)": "chainLen"}})},
 		{"verifyAddChain", handlerKernel(h, "verifyAddChain", "verifyAddChain", "(validateFails precertTestFails isPrecert_ expectingPrecert_ : Bool)", "ErrKind", "", "ErrKind.ok",
-			Spec{Kind: "i64", Ret: "errkind", Ignore: ign,
+			Spec{Kind: "i64", Lazy: true, Ret: "errkind", Ignore: ign,
 				ErrCalls: map[string]string{"ValidateChain": "validateFails", "IsPrecertificate": "precertTestFails"}})},
 		{"checkAuditPath", handlerKernel(h, "checkAuditPath", "checkAuditPath", "(someWrongSize : Bool)", "Bool", "", "true",
 			Spec{Kind: "i64", Ignore: ign, RangeCond: map[string]string{"path": "someWrongSize", "cond:path": "len(node) != sha256.Size"}})},
 		{"marshalGetEntriesResponse", handlerKernel(h, "marshalGetEntriesResponse", "marshalGetEntriesResponse", "", "ErrKind", "", "ErrKind.ok",
-			Spec{Kind: "i64", Ret: "errkind", Ignore: ign, IgnoreLHS: []string{"jsonRsp", "jsonRsp.Entries", "extraData", "treeLeaf"}})},
+			Spec{Kind: "i64", Lazy: true, Ret: "errkind", Ignore: ign, IgnoreLHS: []string{"jsonRsp", "jsonRsp.Entries", "extraData", "treeLeaf"}})},
 		{"MirrorSTHGetter.GetSTH", handlerKernel(sthgo, "MirrorSTHGetter.GetSTH", "mirrorSTHGetterGetSTH", "(rootFails storeFails : Bool)", "ErrKind", "", "ErrKind.ok",
-			Spec{Kind: "i64", Ret: "errkind", Ignore: ign,
+			Spec{Kind: "i64", Lazy: true, Ret: "errkind", Ignore: ign,
 				ErrCalls: map[string]string{"getSignedLogRoot": "rootFails", "sg.st.GetMirrorSTH": "storeFails"}})},
 		{"getSignedLogRoot", handlerKernel(sthgo, "getSignedLogRoot", "getSignedLogRoot", "(quotaSet quotaBadType rpcFails slrNil rootBad : Bool) (hashLen : Int)", "ErrKind × Bool",
 			"let rpc_ := false\n  ", "(ErrKind.ok, rpc_)",
-			Spec{Kind: "i64", Ret: "errkind", StateVars: []string{"rpc_"}, Ignore: ign, IgnoreLHS: []string{"req", "req.ChargeTo", "quotaUser", "ok", "slr", "currentRoot"},
+			Spec{Kind: "i64", Lazy: true, Ret: "errkind", StateVars: []string{"rpc_"}, Ignore: ign, IgnoreLHS: []string{"req", "req.ChargeTo", "quotaUser", "ok", "slr", "currentRoot"},
 				ErrCalls: map[string]string{"client.GetLatestSignedLogRoot": "rpcFails|rpc_ := true"},
 				InitCond: map[string]string{"q := ctx.Value(remoteQuotaCtxKey) ; q != nil": "quotaSet", "err := currentRoot.UnmarshalBinary(slr.GetLogRoot()) ; err != nil": "rootBad"},
 				Repl:     map[string]string{"!ok": "quotaBadType", "slr == nil": "slrNil", "len(currentRoot.RootHash)": "hashLen", "sha256.Size": "(32 : Int)"}})},
